@@ -33,8 +33,8 @@ ASSUMPTIONS = [
     "floats returned by composition_conservation are encoded as rationals p/q (q <= 10^6, residual <= 1e-12)",
 ]
 
-QUICK = ["single_q", "cfgs_q", "sys_q", "hist_q", "opts_q"]
-THOROUGH = ["single_t", "cfgs_t", "sys_t", "hist_t", "opts_t"]
+QUICK = ["single_q", "sys_q", "hist_q", "opts_q", "trace_q"]   # cfgs: thorough only (traces draw all 20 formulations)
+THOROUGH = ["single_t", "cfgs_t", "sys_t", "hist_t", "opts_t", "trace_t"]
 ACTIONS = ["GenSystem", "SetExtent", "GenNoPerturb", "GenBreakQuotient", "GenScale",
            "GenBreakConservation", "GenResidual"]
 ROUNDTRIP_TOL = 1e-9
@@ -43,8 +43,11 @@ ROUNDTRIP_TOL = 1e-9
 # ------------------------------------------------------------------ observation
 def evaluations_of(inp):
     """the evaluations made on one residual object: earlier ones (history) and the current one"""
-    evs = [dict(K=h["K"], c=h["c"], c0=h["c0"], pert=h["pert"], ceq=h.get("ceq", h["c"])) for h in inp.get("hist", [])]
-    evs.append(dict(K=inp["K"], c=inp["c"], c0=inp["c0"], pert=inp["pert"], ceq=inp.get("ceq", inp["c"])))
+    n, r = len(inp["species"]), len(inp["nu"])
+    evs = [dict(K=h["K"], c=h["c"], c0=h["c0"], pert=h["pert"], ceq=h.get("ceq", h["c"]),
+                dexp=h.get("dexp") or [0] * n, Kexp=h.get("Kexp") or [0] * r) for h in inp.get("hist", [])]
+    evs.append(dict(K=inp["K"], c=inp["c"], c0=inp["c0"], pert=inp["pert"], ceq=inp.get("ceq", inp["c"]),
+                    dexp=inp.get("dexp") or [0] * n, Kexp=inp.get("Kexp") or [0] * r))
     return evs
 
 
@@ -58,60 +61,111 @@ def _backend(name):
     return {"sympy": sympy, "numpy": numpy, "math": math}[name]
 
 
+def _blank_obs():
+    return {"raised": False, "exc": "", "unrepresentable": False, "len": -1, "cls": "", "max": None,
+            "roundtrip": None, "q": [], "keys": [], "totc": [], "tot0": [], "totcT": [], "tot0T": [],
+            "qarr": [], "totd": [], "scA": [], "scK": [], "eqc": []}
+
+
+def _mant(x, e):
+    """projection of an exact number x onto the mantissa of x = m * 10^e -> [n, d] or None"""
+    try:
+        return ec.rat_pair(Fraction(x) / Fraction(10) ** e) if isinstance(x, (int, Fraction)) else \
+            ec.rat_pair(x / (10 ** __import__("sympy").Integer(e)))
+    except Exception:
+        return None
+
+
+def _fmant(x, e):
+    """projection of a float x onto the mantissa of x = m * 10^e -> [n, d] or None"""
+    try:
+        return ec.float_rat_pair(float(x) / 10.0 ** e)
+    except Exception:
+        return None
+
+
+def _split_total(x, texp, has_trace):
+    """a float total -> (macro part, trace mantissa): x = M + T * 10^texp with small rationals M, T"""
+    try:
+        x = float(x)
+        if not has_trace:
+            return ec.float_rat_pair(x), [0, 1]
+        import math
+        if not math.isfinite(x):
+            return None, None
+        m = Fraction(x).limit_denominator(10000)
+        t = (Fraction(x) - m) / Fraction(10) ** texp
+        tf = Fraction(t).limit_denominator(10000)
+        if abs(float(t) - float(tf)) > 1e-3 or abs(tf) > 10 ** 6:
+            return ec.rat_pair(m), None
+        return ec.rat_pair(m), ec.rat_pair(tf)
+    except Exception:
+        return None, None
+
+
 def observe_all(inp, tolz, tolnz):
     """Evaluate the real code on one constructed input: ONE EqSystem (built with the constants of the
     first evaluation), ONE NumSys object, evaluated once per entry of evaluations_of(inp) with that
     entry's parameters.  Options (inp['opt']): backend sympy (exact rationals) / numpy / math (floats);
     constants passed in params or taken from the system; species order; species by composition or
-    by formula.  Returns one observation per evaluation (per-species vectors in the order of the case)."""
+    by formula; written form.  Concentrations are mantissa * 10^dexp_j, constants mantissa * 10^Kexp_i.
+    Returns one observation per evaluation (per-species vectors in the order of the case).  Whatever
+    the code under test does (exception of any class, odd return types) ends in an observation."""
     import numpy as np
     import sympy
     bk, nep, order, spf, wf = inp.get("opt", DEFAULT_OPT)
     exact = bk == "sympy"
     evs = evaluations_of(inp)
     rev = (lambda v: v[::-1]) if order == "rev" else (lambda v: list(v))
-    species = rev(inp["species"])
-    nu = [rev(row) for row in inp["nu"]]
-    num = ec.srat if exact else (lambda p: float(Fraction(int(p[0]), int(p[1]))))
-    written = None
-    if wf != "net":
-        wi, wj, wm = inp["written"]          # 1-based reaction, species position in case order, amount
-        n_sp = len(inp["species"])
-        written = {"kind": wf, "i": wi - 1, "j": (n_sp - wj) if order == "rev" else wj - 1, "m": wm}
-    es, names = ec.build_system(species, nu, [ec.srat(k) if exact else num(k) for k in evs[0]["K"]], spform=spf,
-                                written=written)
-    ns, ns_exc = None, None
+    n_sp = len(inp["species"])
+    texp = int(inp.get("texp", -9))
+
+    def values(pairs, exps):   # exact sympy numbers mantissa * 10^e, case order
+        return [ec.srat(p) * sympy.Integer(10) ** int(e) for p, e in zip(pairs, exps)]
+
+    def num(v):
+        return v if exact else float(v)
+
+    es = ns = None
+    build_exc = None
     try:
+        species = rev(inp["species"])
+        nu = [rev(row) for row in inp["nu"]]
+        written = None
+        if wf != "net":
+            wi, wj, wm = inp["written"]          # 1-based reaction, species position in case order, amount
+            written = {"kind": wf, "i": wi - 1, "j": (n_sp - wj) if order == "rev" else wj - 1, "m": wm}
+        k0 = values(evs[0]["K"], evs[0]["Kexp"])
+        es, names = ec.build_system(species, nu, [num(k) for k in k0], spform=spf, written=written)
         ns = ec.numsys_class(inp["ns"])(es, backend=_backend(bk), rref_equil=bool(inp["re"]),
                                         rref_preserv=bool(inp["rp"]), new_eq_params=bool(nep))
     except Exception as ex:
-        ns_exc = ex
+        build_exc = ex
     out = []
     for ev in evs:
-        consts = [num(k) for k in ev["K"]]
-        c = rev([num(v) for v in ev["c"]])
-        c0 = rev([num(v) for v in ev["c0"]])
-        params = c0 + (consts if nep else [])
-        obs = {"raised": False, "exc": "", "unrepresentable": False, "len": -1, "cls": "", "max": None,
-               "roundtrip": None, "q": [], "keys": [], "totc": [], "tot0": [],
-               "qarr": [], "totd": [], "scA": [], "scK": [], "eqc": []}
+        obs = _blank_obs()
+        dexp, kexp = ev["dexp"], ev["Kexp"]
+        has_trace = any(int(e) != 0 for e in dexp)
         try:
-            if ns_exc is not None:
-                raise ns_exc
-            y = ec.internal_state(ns, inp["ns"], [ec.srat(v) for v in rev(ev["c"])],
-                                  [float(p) for p in c0] + [float(k) for k in consts])
+            if build_exc is not None:
+                raise build_exc
+            xc, xc0, xk = values(ev["c"], dexp), values(ev["c0"], dexp), values(ev["K"], kexp)
+            consts = [num(k) for k in xk]
+            c = rev([num(v) for v in xc])
+            c0 = rev([num(v) for v in xc0])
+            params = c0 + (consts if nep else [])
+            fparams = [float(p) for p in c0] + [float(k) for k in consts]
+            y = ec.internal_state(ns, inp["ns"], rev(xc), fparams)
             if y is None:
                 obs["unrepresentable"] = True
             else:
                 if not exact:
                     y = [float(sympy.N(v, 17)) for v in y]
-                obs["roundtrip"] = ec.roundtrip_error(ns, y, c, [float(p) for p in c0] + [float(k) for k in consts])
+                obs["roundtrip"] = ec.roundtrip_error(ns, y, c, fparams)
                 if ns.pre_processor is not None:   # the formulation's own pre_processor must denote the state too
-                    y2, _ = ns.pre_processor(np.array([float(v) for v in c]),
-                                             np.array([float(p) for p in c0] + [float(k) for k in consts]))
+                    y2, _ = ns.pre_processor(np.array([float(v) for v in c]), np.array(fparams))
                     if all(np.isfinite(y2)):
-                        obs["roundtrip"] = max(obs["roundtrip"], ec.roundtrip_error(
-                            ns, list(y2), c, [float(p) for p in c0] + [float(k) for k in consts]))
+                        obs["roundtrip"] = max(obs["roundtrip"], ec.roundtrip_error(ns, list(y2), c, fparams))
                 f = ns.f(y, params)
                 obs["len"] = len(f)
                 obs["cls"], obs["max"] = ec.classify_residual(f, tolz, tolnz)
@@ -120,25 +174,33 @@ def observe_all(inp, tolz, tolnz):
             obs["exc"] = type(ex).__name__
             obs["msg"] = str(ex)[:160]
         try:
-            fc = rev([Fraction(int(v[0]), int(v[1])) for v in ev["c"]])
-            f0 = rev([Fraction(int(v[0]), int(v[1])) for v in ev["c0"]])
-            feq = rev([Fraction(int(v[0]), int(v[1])) for v in ev["ceq"]]) if "ceq" in ev else fc
-            obs["q"] = [ec.rat_pair(q) for q in es.equilibrium_quotients(fc)]
+            if build_exc is not None:
+                raise build_exc
+            P10 = [Fraction(10) ** int(e) for e in dexp]
+            fc = rev([Fraction(int(v[0]), int(v[1])) * p for v, p in zip(ev["c"], P10)])
+            f0 = rev([Fraction(int(v[0]), int(v[1])) * p for v, p in zip(ev["c0"], P10)])
+            feq = rev([Fraction(int(v[0]), int(v[1])) * p for v, p in zip(ev.get("ceq", ev["c"]), P10)])
+            obs["q"] = [_mant(q, int(e)) for q, e in zip(es.equilibrium_quotients(fc), kexp)]
             keys, totc, tot0 = es.composition_conservation(fc, f0)
             obs["keys"] = [int(k) for k in keys]
-            obs["totc"] = [ec.float_rat_pair(v) for v in totc]
-            obs["tot0"] = [ec.float_rat_pair(v) for v in tot0]
+            sc = [_split_total(v, texp, has_trace) for v in totc]
+            s0 = [_split_total(v, texp, has_trace) for v in tot0]
+            obs["totc"], obs["totcT"] = [a for a, _ in sc], [b for _, b in sc]
+            obs["tot0"], obs["tot0T"] = [a for a, _ in s0], [b for _, b in s0]
             # argument forms: two float states stacked in a 2-d array; dicts keyed by substance name
             q2 = es.equilibrium_quotients(np.array([[float(v) for v in fc], [float(v) for v in feq]]))
-            obs["qarr"] = [[ec.float_rat_pair(q[0]) for q in q2], [ec.float_rat_pair(q[1]) for q in q2]]
+            obs["qarr"] = [[_fmant(q[0], int(e)) for q, e in zip(q2, kexp)],
+                           [_fmant(q[1], int(e)) for q, e in zip(q2, kexp)]]
             _, td, t0d = es.composition_conservation(dict(zip(names, [float(v) for v in fc])),
                                                      dict(zip(names, [float(v) for v in f0])))
-            obs["totd"] = [[ec.float_rat_pair(v) for v in td], [ec.float_rat_pair(v) for v in t0d]]
+            obs["totd"] = [[_split_total(v, texp, has_trace)[0] for v in td],
+                           [_split_total(v, texp, has_trace)[0] for v in t0d]]
             # the un-reduced (A, ks) and the system's own constants
-            A, ks = es.stoichs_constants(eq_params=[ec.srat(k) for k in ev["K"]], rref=False, backend=sympy)
+            A, ks = es.stoichs_constants(eq_params=values(ev["K"], kexp), rref=False, backend=sympy)
             obs["scA"] = [rev([int(v) for v in row]) for row in np.asarray(A).tolist()]
-            obs["scK"] = [ec.rat_pair(k) for k in ks]
-            obs["eqc"] = [ec.float_rat_pair(k) if not exact else ec.rat_pair(k) for k in es.eq_constants()]
+            obs["scK"] = [_mant(k, int(e)) for k, e in zip(ks, kexp)]
+            obs["eqc"] = [(_mant(k, int(e)) if exact else _fmant(k, int(e)))
+                          for k, e in zip(es.eq_constants(), evs[0]["Kexp"])]
         except Exception as ex:
             obs["helpers_raised"] = type(ex).__name__ + ": " + str(ex)[:120]
         out.append(obs)
@@ -157,6 +219,9 @@ def disagreements(inp, exp, obs, nth=0, pert=None):
     if list(opt) != DEFAULT_OPT:
         cfg["backend"] = opt[0]
         cfg["opt"] = "%s/%s/%s/%s/%s" % (opt[0], "params" if opt[1] else "ownK", opt[2], opt[3], opt[4])
+    evs_ = evaluations_of(inp)
+    if any(int(e) != 0 for e in evs_[min(nth, len(evs_) - 1)]["dexp"]):
+        cfg["scale"] = "trace"
     if nth > 0:
         cfg["reused"] = True   # the object had been evaluated before with other parameters
     pert = pert or inp["pert"]
@@ -180,6 +245,8 @@ def disagreements(inp, exp, obs, nth=0, pert=None):
             bad.append(dict(fn="equilibrium_quotients", what="value"))
         if obs["keys"] != exp["keys"] or obs["totc"] != exp["totc"] or obs["tot0"] != exp["tot0"]:
             bad.append(dict(fn="composition_conservation", what="value"))
+        elif "totcT" in exp and (obs["totcT"] != exp["totcT"] or obs["tot0T"] != exp["tot0T"]):
+            bad.append(dict(fn="composition_conservation", what="value-trace-scale"))
         if "qceq" in exp:   # argument forms (judged for the current evaluation)
             if obs["qarr"] != [exp["q"], exp["qceq"]]:
                 bad.append(dict(fn="equilibrium_quotients", what="value-2d-array"))
@@ -194,10 +261,12 @@ def disagreements(inp, exp, obs, nth=0, pert=None):
 
 def replay_case(case):
     inp, exp = case["in"], case["exp"]
+    inp = dict(inp, texp=exp.get("texp", TRACE_EXP))
     allobs = observe_all(inp, exp["tolz"], exp["tolnz"])
     bad = []
     for nth, (h, o) in enumerate(zip(inp.get("hist", []), allobs)):
-        hexp = dict(zero=h["zero"], neq=exp["neq"], q=h["q"], keys=exp["keys"], totc=h["totc"], tot0=h["tot0"])
+        hexp = dict(zero=h["zero"], neq=exp["neq"], q=h["q"], keys=exp["keys"], totc=h["totc"], tot0=h["tot0"],
+                    totcT=h["totcT"], tot0T=h["tot0T"])
         bad += disagreements(inp, hexp, o, nth=nth, pert=h["pert"])
     bad += disagreements(inp, exp, allobs[-1], nth=len(allobs) - 1)
     obs = allobs[-1]
@@ -259,9 +328,32 @@ class Pool(object):
         return rids, [self.species[k] for k in sidx], nu
 
 
+TRACE_EXP = -9
+
+
 def _gen_eval(rng, nu, n):
-    """one (ceq, xi, c0, c, pert) construction for a system, or None when inadmissible"""
+    """one (ceq, xi, c0, c, pert) construction for a system, or None when inadmissible; now and then
+    with some species on the trace scale (then no extents, shifts only of macro species)"""
     ceq = [rng.choice(QUARTERS) for _ in range(n)]
+    trace = sorted(rng.sample(range(n), rng.randint(1, min(2, n)))) if rng.random() < 0.25 else []
+    if trace:
+        c, c0 = list(ceq), list(ceq)
+        kind = rng.choice(["none", "none", "scale", "shift0"])
+        pert = {"kind": "none", "i": 0, "a": [0, 1]}
+        if kind == "scale":
+            j, f = rng.randrange(n), rng.choice(FACTORS)
+            c[j] = ceq[j] * f
+            pert = {"kind": kind, "i": j + 1, "a": _pair(f)}
+        elif kind == "shift0":
+            macro = [j for j in range(n) if j not in trace]
+            if not macro:
+                return None
+            j, d = rng.choice(macro), rng.choice(SHIFTS)
+            if c0[j] + d < 0:
+                return None
+            c0[j] = c0[j] + d
+            pert = {"kind": kind, "i": j + 1, "a": _pair(d)}
+        return dict(ceq=ceq, xi=[Fraction(0)] * len(nu), c0=c0, c=c, pert=pert, trace=[j + 1 for j in trace])
     xi = [rng.choice(EXTENTS) if rng.random() < 0.7 else Fraction(0) for _ in nu]
     c0 = [ceq[j] - sum(x * row[j] for x, row in zip(xi, nu)) for j in range(n)]
     if min(c0) < 0:
@@ -284,7 +376,7 @@ def _gen_eval(rng, nu, n):
             return None
         c0[j] = c0[j] + d
         pert = {"kind": kind, "i": j + 1, "a": _pair(d)}
-    return dict(ceq=ceq, xi=xi, c0=c0, c=c, pert=pert)
+    return dict(ceq=ceq, xi=xi, c0=c0, c=c, pert=pert, trace=[])
 
 
 def gen_trace(pool, rng, max_rxns):
@@ -302,7 +394,9 @@ def gen_trace(pool, rng, max_rxns):
         wr = [0, 0, 0]
         if opt[4] != "net":   # any reaction, any species of the system, amount 1..3 on both sides
             wr = [rng.randint(1, len(rids)), rng.randint(1, len(species)), rng.randint(1, 3)]
-        return dict(rids=rids, species=species, nu=nu, evals=evs, ns=rng.choice(ec.NUMSYS), re=re_, rp=rp, opt=opt,
+        # the tanh variable cannot resolve a 1e-9 concentration in double precision: not on the trace scale
+        pool_ns = [n for n in ec.NUMSYS if n != "LinTanh"] if any(e["trace"] for e in evs) else list(ec.NUMSYS)
+        return dict(rids=rids, species=species, nu=nu, evals=evs, ns=rng.choice(pool_ns), re=re_, rp=rp, opt=opt,
                     written=wr)
     raise core.MachineryFailure("C07 generator: no admissible construction found")
 
@@ -329,22 +423,29 @@ def _enc(v):
     return v
 
 
-OBS_FIELDS = ("raised", "len", "cls", "q", "keys", "totc", "tot0", "qarr", "totd", "scA", "scK", "eqc")
+OBS_FIELDS = ("raised", "len", "cls", "q", "keys", "totc", "tot0", "totcT", "tot0T", "qarr", "totd", "scA", "scK", "eqc")
 OPTIONS = [[b, n, o, f, w] for b in ("sympy", "numpy", "math") for n in (True, False) for o in ("asc", "rev")
            for f in ("comp", "formula") for w in ("net", "net", "self", "other", "inact")]
 
 
 def run_trace(g):
-    recs = [dict(K=_k_of(g["nu"], e["ceq"]), c=[_pair(v) for v in e["c"]], c0=[_pair(v) for v in e["c0"]],
-                 pert=e["pert"], ceq=[_pair(v) for v in e["ceq"]]) for e in g["evals"]]
+    n_sp = len(g["species"])
+    recs = []
+    for e in g["evals"]:
+        dexp = [TRACE_EXP if (j + 1) in e["trace"] else 0 for j in range(n_sp)]
+        recs.append(dict(K=_k_of(g["nu"], e["ceq"]), c=[_pair(v) for v in e["c"]], c0=[_pair(v) for v in e["c0"]],
+                         pert=e["pert"], ceq=[_pair(v) for v in e["ceq"]], dexp=dexp,
+                         Kexp=[sum(v * d for v, d in zip(row, dexp)) for row in g["nu"]]))
     inp = dict(species=g["species"], nu=g["nu"], ns=g["ns"], re=g["re"], rp=g["rp"], opt=g["opt"], hist=recs[:-1],
-               written=g["written"], **recs[-1])
+               written=g["written"], texp=TRACE_EXP, **recs[-1])
     allobs = observe_all(inp, 10, 6)
     tr = [{"ev": "sys", "rs": g["rids"]}]
     for n, (e, obs) in enumerate(zip(g["evals"], allobs)):
         if n:
             tr.append({"ev": "again"})
         tr += [{"ev": "conc", "v": _pair(v)} for v in e["ceq"]]
+        if e["trace"]:
+            tr.append({"ev": "trace", "T": e["trace"]})
         tr += [{"ev": "extent", "x": _pair(x)} for x in e["xi"]]
         p = dict(e["pert"])
         p["ev"] = "pert"
@@ -368,6 +469,9 @@ def _trace_key(inp, obs, clause, nth=0):
         if list(opt) != DEFAULT_OPT:
             key["backend"] = opt[0]
             key["opt"] = "%s/%s/%s/%s/%s" % (opt[0], "params" if opt[1] else "ownK", opt[2], opt[3], opt[4])
+        evs_ = evaluations_of(inp)
+        if any(int(e) != 0 for e in evs_[min(nth, len(evs_) - 1)]["dexp"]):
+            key["scale"] = "trace"
         if nth > 0:
             key["reused"] = True
         if clause == "raises":
@@ -400,11 +504,17 @@ def run(ctx):
         kinds = collections.Counter(c["in"]["pert"]["kind"] for c in cases)
         if sl == "sys_q" and len({c["in"]["opt"][4] for c in cases}) < 4:
             raise core.MachineryFailure("vacuity: written forms missing in slice %s" % sl)
+        if sl.startswith("trace"):
+            tiny = sum(1 for c in cases if min(c["in"]["Kexp"]) <= -18 and not c["in"]["opt"][1])
+            ctx.counters["trace_scale_cases_ownK_K_below_1e-17"] += tiny
+            if tiny < 100:
+                raise core.MachineryFailure("vacuity: %d trace-scale cases with tiny own constants in %s" % (tiny, sl))
         if sl.startswith("opts"):
             seen_opts = {tuple(c["in"]["opt"]) for c in cases}
             if len(seen_opts) < 28 or len({o[4] for o in seen_opts}) < 4:
                 raise core.MachineryFailure("vacuity: only %d option bundles in slice %s" % (len(seen_opts), sl))
-        for k in (("none", "extent") if few_kinds else ("none", "extent", "scale", "shift0")):
+        for k in (("none", "scale", "shift0") if sl.startswith("trace") else ("none", "extent") if few_kinds
+                  else ("none", "extent", "scale", "shift0")):
             if not kinds[k]:
                 raise core.MachineryFailure("vacuity: no %s case in slice %s" % (k, sl))
         if history:
